@@ -240,10 +240,34 @@ Definition relocate_target (toks : list ftoken) (idx : nat) (pos : tokpos)
   end.
 
 (* lines_back after the optional decrement (u16 arithmetic; the decrement happens only when
-   lines_back > 0) *)
+   lines_back > 0).  newlines_before.saturating_sub(lines_back) is the truncated N subtraction. *)
 Definition lines_back (nl nla : N) : N :=
   let lb := N.min nla nl in
   if (nl <=? nla) && (1 <? nl) then lb - 1 else lb.
+
+(* `ws.match_indices('\n')`: the byte positions of the LFs (i = position of the head of l) *)
+Fixpoint lf_positions_from (i : N) (l : bytes) : list N :=
+  match l with
+  | [] => []
+  | b :: t => if b =? 10 then i :: lf_positions_from (i + 1) t else lf_positions_from (i + 1) t
+  end.
+
+(* `ws.match_indices('\n').take(k).last().map_or(0, |(pos, _)| pos + 1)`: the offset just past
+   the k-th LF of ws (past the last one if there are fewer; 0 if k = 0 or there is none) *)
+Definition kept_len_ignored (ws : bytes) (k : nat) : N :=
+  match last_opt (firstn k (lf_positions_from 0 ws)) with
+  | Some pos => pos + 1
+  | None => 0
+  end.
+
+(* `kept_len` of the blank-line branch (commit 014530d): for an ignored token the token's own
+   line breaks are measured, for a formatted token the configured newline string.
+   kept_breaks = newlines_before.saturating_sub(lines_back) as usize *)
+Definition kept_len (rs : rsettings) (p : ftoken) (nla : N) : N :=
+  let nl := f_nl (snd p) in
+  let kept_breaks := nl - lines_back nl nla in
+  if f_ignored (snd p) then kept_len_ignored (t_ws (fst p)) (N.to_nat kept_breaks)
+  else nl_len rs * kept_breaks.
 
 (* (col as usize).clamp(lo, hi); Rust asserts lo <= hi *)
 Definition clamp (x lo hi : N) : N := if x <? lo then lo else if hi <? x then hi else x.
@@ -264,9 +288,8 @@ Definition relocate_at (rs : rsettings) (toks : list ftoken) (idx : nat) (p : ft
   | PWhitespace col nla =>
       let nl := f_nl (snd p) in
       if 0 <? N.min nla nl then
-        let lb := lines_back nl nla in
-        (* saturating_sub on u16 = truncated subtraction on N *)
-        (nto + Z.of_N (nl_len rs * (nl - lb)) - Z.of_N (ws_len rs p))%Z
+        (* new_token_offset + kept_len - ws_len(token) *)
+        (nto + Z.of_N (kept_len rs p nla) - Z.of_N (ws_len rs p))%Z
       else
         let (wl, break_found) := nonbreaking_ws_len rs p in
         let col_ws_start := if break_found then 0 else col_for_token_end_post_fmt rs toks idx in
@@ -296,8 +319,7 @@ Definition relocate_subs (rs : rsettings) (toks : list ftoken) (idx : nat) (p : 
   | PWhitespace col nla =>
       let nl := f_nl (snd p) in
       if 0 <? N.min nla nl then
-        let lb := lines_back nl nla in
-        [(nto + Z.of_N (nl_len rs * (nl - lb)) - Z.of_N (ws_len rs p))%Z]
+        [(nto + Z.of_N (kept_len rs p nla) - Z.of_N (ws_len rs p))%Z]
       else
         let (wl, break_found) := nonbreaking_ws_len rs p in
         let col_ws_start := if break_found then 0 else col_for_token_end_post_fmt rs toks idx in
